@@ -76,6 +76,7 @@ type TermTab struct {
 	True  *Term
 	False *Term
 	reg   *VarRegistry
+	owner *interpreter
 }
 
 // VarRegistry gives every variable name one index shared by all workers, so
